@@ -77,4 +77,14 @@ PROPS = {
         "assumptions": ["allowed normalisations: v4 option order/padding/splitting, names cut to 63/127, ORO duplicates, 4RD reserved bits, IA-prefix address when length 0"],
         "trusted_base": ["modelled, not verified: the v4 and v6 codecs"],
     },
+    "C17": {
+        "coq_files": BASE + ["Label/", "V4/", "V6/Model.v", "V6/Total.v", "Props/C17.v"],
+        "model_is_spec": True,
+        "rule": "every typed accessor of *DHCPv4 (29 methods, 17 value kinds) x absent / present-nil / raw values of every length 0..64 with structured "
+                "(kind-specific well-formed and cut), all-zero, all-0xFF and random fills; the Go result is compared with the model accessor (proved equal "
+                "to the RFC reading) and, for fixed-size kinds, with an independent reference reading in Go; set/get through the typed constructors; "
+                "non-trivial = distinct case",
+        "assumptions": ["a present option with an empty value is Go-nil (what decoding produces); programmatically stored empty non-nil values are outside the tie"],
+        "trusted_base": ["modelled, not verified: dhcpv4 typed accessors and the value types' FromBytes"],
+    },
 }
